@@ -103,6 +103,51 @@ Definition answered (c : case) : bool := forallb (fun t => negb (t_reply t =? 2)
 Definition spec_c03 (c : case) : bool :=
   answered c && spec_hashes_ok (c_init c) && forallb (fun t => spec_hashes_ok (t_dump t)) (c_steps c).
 
+(* propagation clause: an accepted write that changes the content of a node (or of an existing edge)
+   changes the hash of that placement and of every ancestor edge.  Evaluated separately: the XOR
+   definition itself cancels a change below an even number of paths (known finding), so a failure
+   of this clause alone is reported with its own code *)
+Definition find_view (vs : list edge_view) (up down : bytes) : option edge_view :=
+  find (fun v => bytes_eqb (v_up v) up && bytes_eqb (v_down v) down) vs.
+
+Definition hash_changed (before after : list edge_view) (v : edge_view) : bool :=
+  match find_view before (v_up v) (v_down v) with
+  | Some b => negb (v_hash b =? v_hash v)
+  | None => true
+  end.
+
+Definition prop_step (before : list edge_view) (t : step) : bool :=
+  if negb (t_reply t =? 0) then true else
+  let after := t_dump t in
+  match t_op t with
+  | NodePts id _ =>
+      let changed := existsb (fun v => bytes_eqb (v_down v) id &&
+                                       match find_view before (v_up v) (v_down v) with
+                                       | Some b => negb (points_eqb (v_npts b) (v_npts v))
+                                       | None => false end) after in
+      if changed then
+        let anc := ancestors after false id in
+        forallb (fun v => if mem_bytes (v_down v) anc then hash_changed before after v else true) after
+      else true
+  | EdgePts id par _ =>
+      match find_view before par id, find_view after par id with
+      | Some b, Some a =>
+          if points_eqb (v_epts b) (v_epts a) then true
+          else
+            let anc := ancestors after false par in
+            negb (v_hash b =? v_hash a) &&
+            forallb (fun v => if mem_bytes (v_down v) anc then hash_changed before after v else true) after
+      | _, _ => true
+      end
+  end.
+
+Fixpoint prop_steps (before : list edge_view) (steps : list step) : bool :=
+  match steps with
+  | [] => true
+  | t :: steps' => prop_step before t && prop_steps (t_dump t) steps'
+  end.
+Definition spec_c03_prop (c : case) : bool := prop_steps (c_init c) (c_steps c).
+
 (* ---------- C01 ---------- *)
 Definition not_node_type (p : point) : bool := negb (bytes_eqb (p_type p) str_nodeType).
 Definition delivered_node (steps : list step) (id : bytes) : list point :=
@@ -177,6 +222,6 @@ Definition spec_c06 (c : case) : bool := answered c && forallb spec_c06_step (c_
 
 (* ---------- checkers ---------- *)
 Definition check_c01 := check_with case_of_val (fun c => code (corr_case c) (spec_c01 c)).
-Definition check_c03 := check_with case_of_val (fun c => code (corr_case c) (spec_c03 c)).
+Definition check_c03 := check_with case_of_val (fun c => (code (corr_case c) (spec_c03 c) + (if spec_c03_prop c then 0 else 4))%N).
 Definition check_c05 := check_with case_of_val (fun c => code (corr_case c) (spec_c05 c)).
 Definition check_c06 := check_with case_of_val (fun c => code (corr_case c) (spec_c06 c)).
